@@ -153,7 +153,8 @@ def run(ctx):
                 "{1,2,3,m-1,m,4095,4096} (+ one more token); short run + reference at every nibble roll-over of the LZ11 length "
                 "field (0x21..0x8111) + literal / near / far reference; exactly 4094..4097 bytes produced + reference with every "
                 "displacement produced+1..4096 and the legal edge ones; streams declaring 0xFFFF..0x10001 bytes (third header byte "
-                "non-zero); %d seeded random token sequences (lengths log-uniform over "
+                "non-zero); LZ11 extended-size headers declaring 2^24..2^25+5 bytes with a reference before the start after 0..3 "
+                "literals, or truncated (bare and wrapped; verdict open, panic not); %d seeded random token sequences (lengths log-uniform over "
                 "the format's range, displacements anywhere in 1..min(produced,4096)); each as bare LZ10 / bare LZ11 / 0x13-wrapped stream, plus every "
                 "truncation, a reference before the start of output at every token position, trailing byte, overshoot, wrong "
                 "declared length, 32-bit header, stored form, short/unknown-type headers; each stream x 4 entry points x 2 "
@@ -179,7 +180,7 @@ def run(ctx):
     for c in cases:
         by_fam[c["fam"]] = by_fam.get(c["fam"], 0) + 1
     ctx.extra["generated_streams_by_family"] = by_fam
-    for f in ("small", "group", "edge", "nibble", "window", "big", "rand", "fixed"):
+    for f in ("small", "group", "edge", "nibble", "window", "big", "ext", "rand", "fixed"):
         if not by_fam.get(f):
             raise vlib.ToolError("generator family %s produced no cases" % f)
     ctx.extra["generated_streams"] = len(cases)
